@@ -409,7 +409,9 @@ func specialScenarios(start int, seed uint64, thorough bool) []*Scenario {
 		sc.FP = Fingerprint{Kind: "custom", Settings: [][2]uint32{{2, 0}, {4, 4194304}, {5, 32768}}}
 		sc.PeerSettings = [][2]uint32{{3, 100}, {4, 1 << 20}, {5, 16384}}
 		sc.InitConnWU = 1 << 20
-		sc.Reqs = []ReqSpec{{Upload: 100000, RespSize: 1, RespChunk: 16384, App: appReadAll}}
+		// the upload starts long after the peer's SETTINGS have been acknowledged
+		sc.Reqs = []ReqSpec{{Upload: -1, RespSize: 1, RespChunk: 16384, App: appReadAll},
+			{Upload: 100000, RespSize: 1, RespChunk: 16384, App: appReadAll, StartDelayUs: 150000}}
 		add(sc)
 	}
 	// S1h: HEADERS with priority bytes and a header block >= MAX_FRAME_SIZE.
